@@ -130,7 +130,7 @@ def palette():
             CtxCal((Cmp("SEQ_FLGS", "==", "0"),), Poly(((10.0, 0), (1.0, 1)))),
             CtxCal((Cmp("PKT_APID", "==", "1"), Cmp("TYPE", "==", "0")), Spline(((0.0, 0.0), (255.0, 510.0)), 1, False)),
             CtxCal((BoolExpr(Or((Cond("PKT_APID", "==", right_value="2", right_cal=False),),
-                                (And((Cond("SEQ_FLGS", ">=", right_value="1", right_cal=False), Cond("VERSION", "==", right_param="TYPE"))),))),),
+                                (And((Cond("SEQ_FLGS", ">=", right_value="1", right_cal=False), Cond("VERSION", "!=", right_param="TYPE"))),))),),
                    Poly(((30.0, 0), (1.0, 1))))))
     K.append(_simple("u8+ctx3(earlier)+default", "Integer", ctx2, 8, core=True))
 
@@ -138,11 +138,29 @@ def palette():
         return IntEnc(8, ctx_cals=(CtxCal((Cmp(f"F_{tag}", "<", "16", use_cal=False),), Poly(((0.25, 1),))),
                                    CtxCal((Cmp(f"F_{tag}", ">=", "128", use_cal=False), Cmp("PKT_APID", "!=", "0")), POLY_A)))
     K.append(_simple("u8+ctx(own raw)", "Integer", ctx_own, 8))
+
+    def ctx_flags(tag, ctx):
+        # two-parameter conditions with different selectors on each side, in both orders; CALREF is calibrated (2x)
+        return IntEnc(8, default_cal=Poly(((200.0, 0), (1.0, 1))), ctx_cals=(
+            CtxCal((BoolExpr(Cond("SEQ_FLGS", "<", right_param=f"CALREF_{tag}", left_cal=False, right_cal=True)),), Poly(((1000.0, 0), (1.0, 1)))),
+            CtxCal((BoolExpr(And((Cond(f"CALREF_{tag}", ">=", right_param="SEQ_FLGS", left_cal=True, right_cal=False),
+                                  Cond(f"CALREF_{tag}", "<", right_value="3", left_cal=False, right_cal=False)))),), Poly(((2000.0, 0), (1.0, 1))))))
+
+    def build_flags(tag, ctx):
+        ref = PType(f"CALREF_T_{tag}", "Integer", IntEnc(2, default_cal=Poly(((2.0, 1),))))
+        pt = PType(f"T_{tag}", "Integer", ctx_flags(tag, ctx))
+        return Built([ref, pt], [(f"CALREF_{tag}", ref.name), (f"F_{tag}", pt.name)], 10)
+    K.append(Kind("u8+ctx(two-parameter conditions, mixed selectors)", build_flags))
     # enumerated
     K += [_simple("enum-u2", "Enumerated", I(2), 2, core=True, enum=((0, "OFF"), (1, "ON"), (2, "STANDBY"), (3, "FAULT"))),
           _simple("enum-s4", "Enumerated", I(4, "signed"), 4, enum=((-8, "MIN"), (-1, "NEG"), (0, "ZERO"), (7, "MAX"), (5, "FIVE"), (-6, "A"), (-3, "B"))),
           _simple("enum-f16", "Enumerated", F(16), 16, enum=((0.0, "ZERO"), (1.0, "ONE"), (-1.9990234375, "ALLBITS_NO"), (2.5, "X"))),
           _simple("enum-str8", "Enumerated", S(Fixed(8), "US-ASCII"), 8, enum=((" ", "SPACE"), ("A", "LETTER_A"), ("Z", "LETTER_Z"), ("U", "LETTER_U"))),
+          _simple("enum-str16-utf16be", "Enumerated", S(Fixed(16), "UTF-16BE"), 16, enum=(("A", "LETTER_A"), ("\u0101", "A_MACRON"), ("\u5a5a", "CJK_5A5A"), ("\u0202", "X0202"))),
+          _simple("enum-str16-utf16+byteOrderMSB", "Enumerated", S(Fixed(16), "UTF-16", "mostSignificantByteFirst"), 16,
+                  enum=(("A", "LETTER_A"), ("\u0101", "A_MACRON"), ("\u5a5a", "CJK_5A5A"), ("\u0202", "X0202"), ("\ua5a5", "XA5A5"))),
+          _simple("enum-str16-utf16+byteOrderLSB", "Enumerated", S(Fixed(16), "UTF-16", "leastSignificantByteFirst"), 16,
+                  enum=(("A", "LETTER_A"), ("\u0101", "A_MACRON"), ("\u5a5a", "CJK_5A5A"), ("\u0202", "X0202"), ("\ua5a5", "XA5A5"))),
           _simple("enum-u8+poly", "Enumerated", I(8, default_cal=POLY_A), 8, enum=tuple((v, f"L{v}") for v in (0, 1, 0x55, 0x5A, 0xA5, 0xAA, 0xFF, 0x80, 0x7F, 2, 4, 8, 16, 32, 64)))]
     # boolean
     K += [_simple("bool-u1", "Boolean", I(1), 1, core=True), _simple("bool-u8", "Boolean", I(8), 8),
